@@ -761,7 +761,7 @@ pub fn run_c10(ctx: &Ctx, st: &mut Local) {
                 if b < all.len() {
                     seq.extend_from_slice(all[b]);
                 }
-                ctx.begin(name, i, 20_000);
+                ctx.begin(name, i, 120_000);
                 if c10_one(ctx, st, name, i, &seq) {
                     ok += 1;
                 }
@@ -803,7 +803,7 @@ pub fn run_c10(ctx: &Ctx, st: &mut Local) {
             seq.extend(defaults(n));
             seq.extend_from_slice(&tail[..1 + n % 5]);
             if nodes % 16 == 1 {
-                ctx.begin(name, i, 20_000);
+                ctx.begin(name, i, 600_000);
             }
             if c10_one(ctx, st, name, i, &seq) {
                 ok += 1;
@@ -836,7 +836,7 @@ pub fn run_c10(ctx: &Ctx, st: &mut Local) {
                 seq.clear();
                 seq.extend(std::iter::repeat(*op).take(n));
                 seq.extend_from_slice(&tail);
-                ctx.begin(name, i, 20_000);
+                ctx.begin(name, i, 600_000);
                 if c10_one(ctx, st, name, i, &seq) {
                     ok += 1;
                 }
